@@ -24,6 +24,7 @@ import (
 	"github.com/koordinator-sh/koordinator/apis/extension"
 	slov1alpha1 "github.com/koordinator-sh/koordinator/apis/slo/v1alpha1"
 	"github.com/koordinator-sh/koordinator/pkg/slo-controller/noderesource/framework"
+	"github.com/koordinator-sh/koordinator/pkg/util/sloconfig"
 )
 
 // Wire format: see coq/C09/Extract_batch.v.  The observable is the projection of
@@ -219,6 +220,12 @@ func vtC09BRun(x []int64) []int64 {
 			pod.Status.Phase = corev1.PodSucceeded
 		case 3:
 			pod.Status.Phase = corev1.PodFailed
+		case 5: // terminating, still running
+			pod.Status.Phase = corev1.PodRunning
+			pod.DeletionTimestamp = &metav1.Time{Time: vtC09Now}
+		case 6:
+			pod.Status.Phase = corev1.PodPending
+			pod.DeletionTimestamp = &metav1.Time{Time: vtC09Now}
 		default:
 			pod.Status.Phase = corev1.PodUnknown
 		}
@@ -297,6 +304,44 @@ func vtC09BRun(x []int64) []int64 {
 	for i := len(podMetrics) - 1; i >= 0; i-- { // reported order is unrelated to the pod list order
 		nm.Status.PodsMetric = append(nm.Status.PodsMetric, podMetrics[i])
 	}
+
+	// node-level strategy sources; the effective strategy is resolved by the real function
+	if len(c.in)-c.i >= 9 {
+		ak, a1, a2, a3, a4 := c.next(), c.next(), c.next(), c.next(), c.next()
+		k1, h1, k2, h2 := c.next(), c.next(), c.next(), c.next()
+		switch ak {
+		case 0:
+		case 1:
+			data, err := json.Marshal(&configuration.ColocationStrategy{
+				CPUReclaimThresholdPercent:    vtC09PctPtr(a1),
+				MemoryReclaimThresholdPercent: vtC09PctPtr(a2),
+				BatchCPUThresholdPercent:      vtC09PctPtr(a3),
+				BatchMemoryThresholdPercent:   vtC09PctPtr(a4),
+			})
+			if err != nil {
+				panic(err)
+			}
+			node.Annotations[extension.AnnotationNodeColocationStrategy] = string(data)
+		case 2:
+			node.Annotations[extension.AnnotationNodeColocationStrategy] = `{"cpuReclaimThresholdPercent": 3`
+		default:
+			node.Annotations[extension.AnnotationNodeColocationStrategy] = `{"cpuReclaimThresholdPercent":"thirty"}`
+		}
+		lbl := func(key string, kind, h int64) {
+			switch kind {
+			case 0:
+			case 1:
+				node.Labels[key] = fmt.Sprintf("%d.%02d", h/100, h%100)
+			case 2:
+				node.Labels[key] = "abc"
+			default:
+				node.Labels[key] = "-0.30"
+			}
+		}
+		lbl(extension.LabelCPUReclaimRatio, k1, h1)
+		lbl(extension.LabelMemoryReclaimRatio, k2, h2)
+	}
+	strategy = sloconfig.GetNodeColocationStrategy(&configuration.ColocationCfg{ColocationStrategy: *strategy}, node)
 
 	oldClock := Clock
 	Clock = vtclock.NewFakeClock(vtC09Now)
@@ -485,7 +530,7 @@ func vtC09BGen(r *rand.Rand, i int) (string, []int64) {
 	}
 	in = append(in, int64(np))
 	for p := 0; p < np; p++ {
-		phase := []int64{1, 1, 1, 1, 0, 0, 2, 3, 4}[r.Intn(9)]
+		phase := []int64{1, 1, 1, 1, 0, 0, 2, 3, 4, 5, 5, 6}[r.Intn(12)]
 		plabel := []int64{0, 0, 0, 1, 1, 2, 3, 4, 5}[r.Intn(9)]
 		pval := int64(-1)
 		if r.Intn(3) == 0 {
@@ -520,6 +565,33 @@ func vtC09BGen(r *rand.Rand, i int) (string, []int64) {
 		in = append(in, []int64{0, 1, 1, 2, 3, 4, 5}[r.Intn(7)])
 		raise = append(raise, pos(), pos()+1)
 		in = append(in, amtCPU(capCPU/8), amtCPU(capMem/8))
+	}
+	// node-level strategy sources: colocation-strategy annotation and reclaim-ratio labels
+	if r.Intn(2) == 0 {
+		in = append(in, 0, -1, -1, -1, -1, 0, 0, 0, 0)
+	} else {
+		opt := func() int64 {
+			if r.Intn(2) == 0 {
+				return -1
+			}
+			return pct()
+		}
+		ratio := func() int64 {
+			switch r.Intn(6) {
+			case 0:
+				return 0
+			case 1:
+				return 100
+			case 2:
+				return 29 // 0.29*100 = 28.999999999999996
+			case 3:
+				return int64(101 + r.Intn(60))
+			default:
+				return int64(r.Intn(101))
+			}
+		}
+		in = append(in, []int64{0, 1, 1, 2, 2, 3}[r.Intn(6)], opt(), opt(), opt(), opt(),
+			[]int64{0, 1, 1, 1, 2, 3}[r.Intn(6)], ratio(), []int64{0, 1, 1, 1, 2, 3}[r.Intn(6)], ratio())
 	}
 	// metamorphic perturbation: raise one consumption input (or lower the node allocatable)
 	if r.Intn(8) != 0 {
